@@ -114,7 +114,7 @@ def run_real(root, dumper, inp, mode, entry, timeout=0.5):
     div = ("div",) if entry[0] != "scan" else ("scan", [], "div")
     try:
         try:
-            signal.setitimer(signal.ITIMER_VIRTUAL, timeout)
+            signal.setitimer(signal.ITIMER_VIRTUAL, timeout, 0.25)
             r = _run_real(root, dumper, inp, mode, entry)
         finally:
             signal.setitimer(signal.ITIMER_VIRTUAL, 0)
